@@ -1,4 +1,5 @@
 import GomlVerif.Model.Pratt
+import GomlVerif.Model.PrattGrammar
 import GomlVerif.Model.StrLit
 import GomlVerif.Driver.Common
 /-! driver for C11.
@@ -63,11 +64,11 @@ def runLine (l : String) : String :=
     match Sexp.parse arg >>= dec with
     | some t =>
       let ts := printMin t 0
-      s!"{id}\t{render ts}\t{showParse (parse ts)}\twf={wf t}"
+      s!"{id}\t{render ts}\t{showParse (parse ts)}\twf={wf t}\tgrammar={Goml.PrattGrammar.agrees ts} accepted={(parseCst ts).isSome}"
     | none => s!"{id}\tdecode-error"
   else if cmd == "parse" then
     let ts := (arg.splitOn " ").filter (· != "") |>.map tokOfText
-    s!"{id}\t{showParse (parse ts)}"
+    s!"{id}\t{showParse (parse ts)}\tgrammar={Goml.PrattGrammar.agrees ts} accepted={(parseCst ts).isSome}"
   else if cmd == "str" then
     match StrLit.lowerStr (unhex arg) with
     | some v => s!"{id}\t{hexOf v}"
